@@ -313,9 +313,10 @@ func (o observed) same(p observed) bool {
 // ---------------------------------------------------------------- corpus
 
 type corpusCase struct {
-	Name string
-	Src  string
-	Coq  string // empty: not a fragment program (engine comparison only)
+	Name     string
+	Src      string
+	Coq      string // empty: not a fragment program (engine comparison only)
+	Contract string // <name>.contract.cdc: deployed at 0x1 and 0x2 before the script runs
 }
 
 func corpusDir() string {
@@ -334,6 +335,9 @@ func loadCorpus(pid string) []corpusCase {
 	sort.Strings(files)
 	var out []corpusCase
 	for _, f := range files {
+		if strings.HasSuffix(f, ".contract.cdc") {
+			continue
+		}
 		src, err := os.ReadFile(f)
 		if err != nil {
 			continue
@@ -341,6 +345,9 @@ func loadCorpus(pid string) []corpusCase {
 		c := corpusCase{Name: strings.TrimSuffix(filepath.Base(f), ".cdc"), Src: string(src)}
 		if coq, err := os.ReadFile(strings.TrimSuffix(f, ".cdc") + ".coq"); err == nil {
 			c.Coq = strings.TrimSpace(string(coq))
+		}
+		if ct, err := os.ReadFile(strings.TrimSuffix(f, ".cdc") + ".contract.cdc"); err == nil {
+			c.Contract = string(ct)
 		}
 		out = append(out, c)
 	}
@@ -491,3 +498,4 @@ func runFile(path string) {
 		fmt.Printf("direct peephole=%v %s\n", ph, observe(runDirect(dp)))
 	}
 }
+
